@@ -31,7 +31,7 @@ type Program struct {
 	CG     *callgraph.Graph
 	AllFns map[*ssa.Function]bool
 
-	modFns    []*ssa.Function // every function (incl. closures) declared in the module
+	modFns    []*ssa.Function          // every function (incl. closures) declared in the module
 	alias     map[*ssa.Function]string // renamed function → the key it had on the confirmed tree
 	reachable map[*ssa.Function]bool
 	roots     []*ssa.Function
